@@ -194,8 +194,9 @@ func (c *collector) Collect(ch chan<- prometheus.Metric) {
 		ch <- c.targetInfo
 	}
 
-	if c.resourceAttributesFilter != nil && len(c.resourceKeyVals.keys) == 0 {
-		c.createResourceAttributes(metrics.Resource)
+	var resourceKeyVals keyVals
+	if c.resourceAttributesFilter != nil {
+		resourceKeyVals = c.createResourceAttributes(metrics.Resource)
 	}
 
 	// Scopes that differ only in their schema URL have identical scope info
@@ -203,7 +204,7 @@ func (c *collector) Collect(ch chan<- prometheus.Metric) {
 	sentScopeInfos := make(map[instrumentation.Scope]struct{}, len(metrics.ScopeMetrics))
 
 	for _, scopeMetrics := range metrics.ScopeMetrics {
-		n := len(c.resourceKeyVals.keys) + 2 // resource attrs + scope name + scope version
+		n := len(resourceKeyVals.keys) + 2 // resource attrs + scope name + scope version
 		kv := keyVals{
 			keys: make([]string, 0, n),
 			vals: make([]string, 0, n),
@@ -231,8 +232,8 @@ func (c *collector) Collect(ch chan<- prometheus.Metric) {
 			kv.vals = append(kv.vals, scopeMetrics.Scope.Name, scopeMetrics.Scope.Version)
 		}
 
-		kv.keys = append(kv.keys, c.resourceKeyVals.keys...)
-		kv.vals = append(kv.vals, c.resourceKeyVals.vals...)
+		kv.keys = append(kv.keys, resourceKeyVals.keys...)
+		kv.vals = append(kv.vals, resourceKeyVals.vals...)
 
 		for _, m := range scopeMetrics.Metrics {
 			typ := c.metricType(m)
@@ -573,13 +574,19 @@ func (c *collector) metricType(m metricdata.Metrics) *dto.MetricType {
 	return nil
 }
 
-func (c *collector) createResourceAttributes(res *resource.Resource) {
+// createResourceAttributes returns the resource attributes selected as
+// constant labels. They are computed once (until a non-empty set is found)
+// and cached; the cache is only accessed while holding c.mu.
+func (c *collector) createResourceAttributes(res *resource.Resource) keyVals {
 	c.mu.Lock()
 	defer c.mu.Unlock()
 
-	resourceAttrs, _ := res.Set().Filter(c.resourceAttributesFilter)
-	resourceKeys, resourceValues := getAttrs(resourceAttrs)
-	c.resourceKeyVals = keyVals{keys: resourceKeys, vals: resourceValues}
+	if len(c.resourceKeyVals.keys) == 0 {
+		resourceAttrs, _ := res.Set().Filter(c.resourceAttributesFilter)
+		resourceKeys, resourceValues := getAttrs(resourceAttrs)
+		c.resourceKeyVals = keyVals{keys: resourceKeys, vals: resourceValues}
+	}
+	return c.resourceKeyVals
 }
 
 func (c *collector) scopeInfo(scope instrumentation.Scope) (prometheus.Metric, error) {
